@@ -127,6 +127,10 @@ pub struct RunStats {
     dropped_mid_history: u64,
     unblocked_all: u64,
     rejected_backfills: u64,
+    clones_while_pending: u64,
+    sink_pushes: u64,
+    stable_views: u64,
+    stable_consumptions: u64,
     max_slices: usize,
     big_advances: u64,
     max_pending: usize,
@@ -277,6 +281,28 @@ fn observe(slot_id: usize, slot: &mut Slot<'_>, owned: &Owned, rs: &mut RunStats
             return Err(fail(&["C03"], "flatten_into", format!("iovec #{}: flatten_into() did not append after the existing contents", slot_id)));
         }
     }
+    {
+        use std::convert::TryFrom;
+        let via_from = owning_iovec::ConsumingIovec::from(&mut *iov);
+        match owning_iovec::StableIovec::try_from(via_from) {
+            Ok(st) => {
+                if pending {
+                    return Err(fail(&["C04"], "stable-try_from-ok-pending", format!("iovec #{}: StableIovec::try_from() is Ok while a placeholder is pending", slot_id)));
+                }
+                if st.iovs().len() != iter_count {
+                    return Err(fail(&["C03"], "stable-iovs", format!("iovec #{}: StableIovec::iovs() slice count differs", slot_id)));
+                }
+            }
+            Err(c) => {
+                if !pending {
+                    return Err(fail(&["C04"], "stable-try_from-err-stable", format!("iovec #{}: StableIovec::try_from() is Err with nothing pending", slot_id)));
+                }
+                if c.stable_prefix().len() != iter_count {
+                    return Err(fail(&["C03"], "stable-iovs", format!("iovec #{}: the ConsumingIovec handed back by try_from sees another stable prefix", slot_id)));
+                }
+            }
+        }
+    }
     match iov.stable_consumer() {
         Ok(st) => {
             if pending {
@@ -284,6 +310,16 @@ fn observe(slot_id: usize, slot: &mut Slot<'_>, owned: &Owned, rs: &mut RunStats
             }
             if st.iovs().len() != iter_count {
                 return Err(fail(&["C03"], "stable-iovs", format!("iovec #{}: StableIovec::iovs() slice count differs", slot_id)));
+            }
+            if !light && (rest.len() <= 2048 || rs.ops % 8 == 0) {
+                if st.flatten()[..] != rest[..] {
+                    return Err(fail(&["C03"], "stable-flatten", format!("iovec #{}: StableIovec::flatten() differs from the buffered bytes", slot_id)));
+                }
+                let v = st.flatten_into(vec![0x17, 0x18]);
+                if v.len() != 2 + rest.len() || v[..2] != [0x17, 0x18] || v[2..] != rest[..] {
+                    return Err(fail(&["C03"], "stable-flatten_into", format!("iovec #{}: StableIovec::flatten_into() did not append the buffered bytes", slot_id)));
+                }
+                rs.stable_views += 1;
             }
         }
         Err(_) => {
@@ -385,9 +421,29 @@ pub fn execute(steps: &[Step], pool_data: &[u8], drop_seed: u64, rs: &mut RunSta
                     let slot = &mut slots[t];
                     let s = pool.take(*len);
                     let before = slot.iov.len();
-                    match step.op {
-                        Op::Push(_) => slot.iov.push(s),
-                        Op::PushBorrowed(_) => slot.iov.push_borrowed(s),
+                    // One call in four goes through the ZeroCopySink trait
+                    // (directly, or through the blanket impl for `&mut T`).
+                    match (&step.op, si % 4) {
+                        (Op::Push(_), 3) => {
+                            owning_iovec::ZeroCopySink::append_borrow(&mut slot.iov, s);
+                            rs.sink_pushes += 1;
+                        }
+                        (Op::Push(_), 2) => {
+                            let mut by_ref = &mut slot.iov;
+                            owning_iovec::ZeroCopySink::append_borrow(&mut by_ref, s);
+                            rs.sink_pushes += 1;
+                        }
+                        (Op::Push(_), _) => slot.iov.push(s),
+                        (Op::PushBorrowed(_), _) => slot.iov.push_borrowed(s),
+                        (_, 3) => {
+                            owning_iovec::ZeroCopySink::append_copy(&mut slot.iov, s);
+                            rs.sink_pushes += 1;
+                        }
+                        (_, 2) => {
+                            let mut by_ref = &mut slot.iov;
+                            owning_iovec::ZeroCopySink::append_copy(&mut by_ref, s);
+                            rs.sink_pushes += 1;
+                        }
                         _ => slot.iov.push_copy(s),
                     }
                     slot.shadow.bytes.extend_from_slice(s);
@@ -435,8 +491,26 @@ pub fn execute(steps: &[Step], pool_data: &[u8], drop_seed: u64, rs: &mut RunSta
                         slot.shadow.bytes.extend_from_slice(want);
                         Ok(())
                     };
-                    match variant % 4 {
+                    match variant % 6 {
                         0 => push_one(slot, a, src)?,
+                        4 => {
+                            // AnchoredSlice::take leaves an empty slice behind
+                            let mut a = a;
+                            let b = a.take();
+                            if !a.slice().is_empty() {
+                                return Err(fail(&["C05"], "anchored-take", "AnchoredSlice::take() left bytes behind".into()));
+                            }
+                            push_one(slot, b, src)?;
+                            push_one(slot, a, &[])?;
+                            let d: AnchoredSlice = Default::default();
+                            push_one(slot, d, &[])?;
+                        }
+                        5 => {
+                            // the clone outlives the original
+                            let c = a.clone();
+                            drop(a);
+                            push_one(slot, c, src)?;
+                        }
                         1 => {
                             let mut a = a;
                             let pre = (*count / 3).min(5);
@@ -590,11 +664,20 @@ pub fn execute(steps: &[Step], pool_data: &[u8], drop_seed: u64, rs: &mut RunSta
                     }
                 }
                 Op::Clone => {
-                    if slots.len() < 6 && slots[t].shadow.pending.is_empty() {
+                    if slots.len() < 6 {
                         let slot = &slots[t];
                         let c = slot.iov.clone();
                         let mut sh = Shadow::new();
                         sh.bytes = slot.shadow.bytes[slot.shadow.handed..].to_vec();
+                        // A clone taken while placeholders are pending has them
+                        // pending too, and for good: the Backref tokens stay
+                        // with the original.
+                        for p in &slot.shadow.pending {
+                            sh.pending.push(Pending { offset: p.offset - slot.shadow.handed, len: p.len, backref: None });
+                        }
+                        if !sh.pending.is_empty() {
+                            rs.clones_while_pending += 1;
+                        }
                         let lineage = slot.lineage;
                         slots.push(Slot { iov: c, shadow: sh, lineage });
                         touched.push(slots.len() - 1);
@@ -613,6 +696,10 @@ pub fn execute(steps: &[Step], pool_data: &[u8], drop_seed: u64, rs: &mut RunSta
                 Op::Ensure(n) => slots[t].iov.arena().ensure_capacity(*n),
                 Op::TakeArena => {
                     let a = slots[t].iov.consumer().take_arena();
+                    if si % 2 == 1 && held_arenas.len() < 3 {
+                        // a clone of an arena is a fresh arena
+                        held_arenas.push(a.clone());
+                    }
                     if held_arenas.len() < 4 {
                         held_arenas.push(a);
                     }
@@ -645,7 +732,17 @@ pub fn execute(steps: &[Step], pool_data: &[u8], drop_seed: u64, rs: &mut RunSta
                         let take = (*k).min(p.len());
                         (p.len(), p[..take].iter().map(|s| s.len()).sum())
                     };
-                    let got = slot.iov.consumer().consume(*k);
+                    let got = if si % 3 == 0 && slot.shadow.pending.is_empty() {
+                        match slot.iov.stable_consumer() {
+                            Ok(mut st) => {
+                                rs.stable_consumptions += 1;
+                                st.consume(*k)
+                            }
+                            Err(_) => return Err(fail(&["C04"], "stable_consumer-err-stable", format!("iovec #{}: stable_consumer() is Err with nothing pending", t))),
+                        }
+                    } else {
+                        slot.iov.consumer().consume(*k)
+                    };
                     if got != (*k).min(n) {
                         return Err(fail(if slot.shadow.pending.is_empty() { &["C03"] } else { &["C03", "C04"] }, "consume-ret", format!("iovec #{}: consume({}) returned {} with {} stable slices", t, k, got, n)));
                     }
@@ -662,7 +759,17 @@ pub fn execute(steps: &[Step], pool_data: &[u8], drop_seed: u64, rs: &mut RunSta
                     };
                     let slices_before = slot.iov.len();
                     rs.max_slices = rs.max_slices.max(slices_before);
-                    let got = slot.iov.consumer().advance_slices(*n);
+                    let got = if si % 3 == 0 && slot.shadow.pending.is_empty() {
+                        match slot.iov.stable_consumer() {
+                            Ok(mut st) => {
+                                rs.stable_consumptions += 1;
+                                st.advance_slices(*n)
+                            }
+                            Err(_) => return Err(fail(&["C04"], "stable_consumer-err-stable", format!("iovec #{}: stable_consumer() is Err with nothing pending", t))),
+                        }
+                    } else {
+                        slot.iov.consumer().advance_slices(*n)
+                    };
                     if slices_before - slot.iov.len().min(slices_before) > 1024 {
                         rs.big_advances += 1;
                     }
@@ -828,9 +935,9 @@ pub fn gen_history(rng: &mut Rng, n: usize, mixk: Mix, small: bool) -> Vec<Step>
             4 => {
                 if !small && rng.chance(1, 500) {
                     // a read larger than the arena's largest regular chunk (1 MiB)
-                    Op::AnchoredPush(rng.range(1_048_570, 1_400_000), rng.below(4) as u8)
+                    Op::AnchoredPush(rng.range(1_048_570, 1_400_000), rng.below(6) as u8)
                 } else {
-                    Op::AnchoredPush(len(rng).min(if small { 300 } else { 70_000 }), rng.below(4) as u8)
+                    Op::AnchoredPush(len(rng).min(if small { 300 } else { 70_000 }), rng.below(6) as u8)
                 }
             }
             5 => Op::PushHeld,
@@ -1020,6 +1127,10 @@ pub fn run(ctx: &mut Ctx) {
                 ctx.feature_n("iovec.observations_with_bytes_blocked_behind_placeholder", rs.blocked_by_pending);
                 ctx.feature_n("iovec.all_placeholders_filled_events", rs.unblocked_all);
                 ctx.feature_n("iovec.rejected_wrong_size_backfills", rs.rejected_backfills);
+                ctx.feature_n("iovec.clones_taken_while_a_placeholder_was_pending", rs.clones_while_pending);
+                ctx.feature_n("iovec.pushes_through_ZeroCopySink", rs.sink_pushes);
+                ctx.feature_n("iovec.StableIovec_flatten_views_compared", rs.stable_views);
+                ctx.feature_n("iovec.consumption_through_StableIovec", rs.stable_consumptions);
                 ctx.feature_n("iovec.single_advance_across_more_than_1024_slices", rs.big_advances);
                 ctx.maximum("iovec.max_slices_before_an_advance", rs.max_slices as u64);
                 ctx.feature_n("iovec.held_anchored_slice_pushed_later", rs.held_pushed_elsewhere);
